@@ -8,12 +8,15 @@
     d₂) is exactly 0, so call and put evaluate the coded `N` at the same point.
   * `sabr_atm_alpha_root_returns_vol`: a root α ≥ 1e-10 of the cubic whose coefficients `set_alpha_from_atm_black_vol`
     hands to `np.roots` makes the coded Hagan formula `vol_function_sabr` return the target vol at f = k = K.  (That the
-    code picks a ROOT is not part of this theorem — on the unchanged tree it sometimes picks the real part of a complex
-    pair; see the known finding.)
+    code picks a ROOT: the root selection (commit 220a8a5, hand model `Model.C04.selectAlpha`, source text pinned by the
+    registry) returns the real part of a root that passed the real-root filter, the smallest such, strictly positive —
+    or raises FinError when no root passes (`select_alpha_*`); `sabr_atm_calibration_returns_vol` chains the two: EVERY
+    alpha the method stores returns the target vol, given np.roots' postcondition on the roots that pass the filter.)
   * positivity: every vol returned by the Clark family is > 0; SVI under a > 0, b ≥ 0, |ρ| ≤ 1, t > 0.
   * the strike-from-delta objective `g` is 0 exactly when the delta of the strike is the target.
 -/
 import FinVerif.Gen.VolR
+import FinVerif.Model.C04
 import FinVerif.Spec.C04
 import Mathlib.Analysis.SpecialFunctions.Pow.Real
 import Mathlib.Analysis.SpecialFunctions.Sqrt
@@ -28,7 +31,7 @@ set_option linter.unusedVariables false
 set_option linter.unusedSimpArgs false
 
 namespace FinVerif.Props.C04
-open FinVerif FinVerif.Gen FinVerif.Spec.C04
+open FinVerif FinVerif.Gen FinVerif.Spec.C04 FinVerif.Model.C04
 
 @[simp] theorem exErr_ok {α} (a : α) : VolR.exErr (Except.ok a : Except PyErr α) = false := rfl
 @[simp] theorem exOkD_ok {α} (d a : α) : VolR.exOkD d (Except.ok a : Except PyErr α) = a := rfl
@@ -190,6 +193,124 @@ theorem sabr_atm_alpha_root_returns_vol (σ K t β ρ ν α : ℝ) (hK : 0 < K) 
   rw [div_eq_iff (by positivity)]
   field_simp at hroot ⊢
   linear_combination (480 * A) * hroot
+
+/-! ### the root selection: a real root or FinError, never silently something else -/
+
+theorem minL_mem (a : ℝ) (l : List ℝ) : minL (a :: l) ∈ a :: l := by
+  induction l generalizing a with
+  | nil => simp [minL]
+  | cons b l ih =>
+    simp only [minL, minA]
+    split_ifs
+    · exact List.mem_cons_of_mem _ (ih b)
+    · exact List.mem_cons_self ..
+
+theorem minL_le (a : ℝ) (l : List ℝ) : ∀ x ∈ a :: l, minL (a :: l) ≤ x := by
+  induction l generalizing a with
+  | nil => intro x hx; simp at hx; simp [minL, hx]
+  | cons b l ih =>
+    intro x hx
+    simp only [minL, minA]
+    rcases List.mem_cons.mp hx with rfl | hx
+    · split_ifs with h
+      · exact h.le
+      · exact le_refl _
+    · have := ih b x hx
+      split_ifs with h
+      · exact this
+      · exact le_trans (not_lt.mp h) this
+
+/-- C04 (decision logic): no root with positive real part and (numerically) zero imaginary part ⇔ `FinError`. -/
+theorem select_alpha_raises_iff (tol one : ℝ) (roots : List (ℝ × ℝ)) :
+    selectAlpha tol one roots = .error .finError ↔ ∀ z ∈ roots, rootPasses tol one z = false := by
+  unfold selectAlpha realRoots
+  cases hf : roots.filter (rootPasses tol one) with
+  | nil =>
+    simp only [List.map_nil, true_iff]
+    intro z hz
+    by_contra hc
+    have : z ∈ roots.filter (rootPasses tol one) := List.mem_filter.mpr ⟨hz, by simpa using hc⟩
+    rw [hf] at this; cases this
+  | cons y ys =>
+    simp only [List.map_cons, false_iff, not_forall, reduceCtorEq]
+    have hy : y ∈ roots.filter (rootPasses tol one) := by rw [hf]; exact List.mem_cons_self ..
+    obtain ⟨hy1, hy2⟩ := List.mem_filter.mp hy
+    exact ⟨y, hy1, by simp [hy2]⟩
+
+/-- "no positive real root ⇒ FinError" -/
+theorem select_alpha_none_raises (tol one : ℝ) (roots : List (ℝ × ℝ)) (h : ∀ z ∈ roots, rootPasses tol one z = false) :
+    selectAlpha tol one roots = .error .finError := (select_alpha_raises_iff tol one roots).mpr h
+
+theorem select_alpha_error_is_finError (tol one : ℝ) (roots : List (ℝ × ℝ)) (e : PyErr)
+    (h : selectAlpha tol one roots = .error e) : e = .finError := by
+  unfold selectAlpha at h
+  split at h <;> simp at h
+  exact h.symm
+
+/-- C04: a returned alpha is the real part of one of the roots that passed the filter, it is strictly positive, that root's
+imaginary part is within the tolerance, and no passing root has a smaller real part. -/
+theorem select_alpha_spec (tol one α : ℝ) (roots : List (ℝ × ℝ)) (h : selectAlpha tol one roots = .ok α) :
+    (∃ z ∈ roots, rootPasses tol one z = true ∧ z.1 = α) ∧ 0 < α ∧
+    (∀ z ∈ roots, rootPasses tol one z = true → α ≤ z.1) := by
+  unfold selectAlpha at h
+  split at h
+  · simp at h
+  · rename_i r rs hr
+    simp only [Except.ok.injEq] at h
+    have hmem : α ∈ realRoots tol one roots := by rw [hr, ← h]; exact minL_mem r rs
+    have hle : ∀ x ∈ realRoots tol one roots, α ≤ x := by rw [hr, ← h]; exact minL_le r rs
+    unfold realRoots at hmem hle
+    obtain ⟨z, hz, hzα⟩ := List.mem_map.mp hmem
+    obtain ⟨hz1, hz2⟩ := List.mem_filter.mp hz
+    refine ⟨⟨z, hz1, hz2, hzα⟩, ?_, ?_⟩
+    · have : 0 < z.1 := by
+        simp only [rootPasses, Bool.and_eq_true, decide_eq_true_eq] at hz2; exact hz2.1
+      rw [← hzα]; exact this
+    · intro w hw hwp
+      exact hle w.1 (List.mem_map.mpr ⟨w, List.mem_filter.mpr ⟨hw, hwp⟩, rfl⟩)
+
+/-- the filter keeps exactly: positive real part and |imaginary part| ≤ tol·max(one, |real part|) -/
+theorem rootPasses_iff (tol one : ℝ) (z : ℝ × ℝ) :
+    rootPasses tol one z = true ↔ 0 < z.1 ∧ |z.2| ≤ tol * max one |z.1| := by
+  have habs : ∀ x : ℝ, absA x = |x| := by
+    intro x; unfold absA
+    split_ifs with h
+    · rw [abs_of_neg h]; ring
+    · rw [abs_of_nonneg (not_lt.mp h)]
+  have hmax : ∀ a b : ℝ, maxA a b = max a b := by
+    intro a b; unfold maxA
+    split_ifs with h
+    · exact (max_eq_right h.le).symm
+    · exact (max_eq_left (not_lt.mp h)).symm
+  simp only [rootPasses, Bool.and_eq_true, decide_eq_true_eq, Bool.not_eq_true', decide_eq_false_iff_not, not_lt, habs, hmax]
+
+/-- C04: EVERY alpha that `set_alpha_from_atm_black_vol` stores returns the target ATM vol: if the selection returns `α`
+from the roots `np.roots` produced, and the roots that pass the real-root filter are roots of the cubic (np.roots'
+postcondition, checked per case by the harness), then the coded SABR formula at f = k = K returns σ (for α ≥ 1e-10, the
+floor `vol_function_sabr` applies to alpha; K > 0). -/
+theorem sabr_atm_calibration_returns_vol (σ K t β ρ ν α : ℝ) (roots : List (ℝ × ℝ)) (hK : 0 < K)
+    (hsel : selectAlpha 1e-10 1 roots = .ok α)
+    (hroots : ∀ z ∈ roots, rootPasses 1e-10 1 z = true →
+        let c := VolR.sabr_atm_cubic σ K t β ρ ν
+        c.1 * z.1 ^ 3 + c.2.1 * z.1 ^ 2 + c.2.2.1 * z.1 + c.2.2.2 = 0)
+    (hα : 1e-10 ≤ α) : VolR.sabr α β ρ ν K K t = .ok σ := by
+  obtain ⟨⟨z, hz, hzp, hzα⟩, _, _⟩ := select_alpha_spec _ _ _ _ hsel
+  have := hroots z hz hzp
+  rw [hzα] at this
+  exact sabr_atm_alpha_root_returns_vol σ K t β ρ ν α hK hα this
+
+/-- non-vacuity: one real root 0.2 and a complex pair with smaller positive real part: the pair is rejected, 0.2 returned
+(the pre-220a8a5 selection returned 0.09, the real part of the pair) -/
+example : selectAlpha (1e-10 : ℝ) 1 [(25, 0), (0.09, 0.26), (0.09, -0.26), (0.2, 0)] = .ok 0.2 := by
+  simp only [selectAlpha, realRoots, List.filter, rootPasses, absA, maxA, minL, minA]
+  norm_num [minL, minA]
+
+/-- … and with only the complex pair positive, FinError -/
+example : selectAlpha (1e-10 : ℝ) 1 [(-3, 0), (0.09, 0.26), (0.09, -0.26)] = .error .finError := by
+  apply select_alpha_none_raises
+  intro z hz
+  simp only [List.mem_cons, List.mem_nil_iff, or_false] at hz
+  rcases hz with rfl | rfl | rfl <;> simp only [rootPasses, absA, maxA] <;> norm_num
 
 /-- non-vacuity: β = 1, ρ = ν = 0: the cubic is `α − σ`, its root `α = σ = 0.2` returns the target -/
 example : VolR.sabr 0.2 1 0 0 1 1 1 = .ok 0.2 :=
